@@ -107,7 +107,9 @@ def gen_physical(rng, tier, i):
     n = rng.choice([2, 2, 3, 3, 4, 4, 5, 5, 6] + ([6, 7, 8] if big else []))
     a = rng.choice([5.0, 6.0, 7.0, 9.0])
     nsteps = rng.randint(1, 4)
-    fam = rng.choice(["benign", "benign", "adiabatic", "generic", "repeat"])
+    fam = rng.choice(["benign", "benign", "adiabatic", "generic", "repeat", "phase_only", "phase_only"])
+    if fam in ("repeat", "phase_only"):
+        nsteps = rng.randint(2, 4)
     om = np.zeros((nsteps, n))
     de = np.zeros((nsteps, n))
     ph = np.zeros((nsteps, n))
@@ -123,21 +125,36 @@ def gen_physical(rng, tier, i):
             x = (k + 0.5) / nsteps
             om[k, :] = max(2.0, omax * math.sin(math.pi * x) ** 2)
             de[k, :] = d0 + (d1 - d0) * x
-    elif fam == "repeat":
+    elif fam == "repeat":        # control: constant drive incl. phase over several steps
         o, d = rng.uniform(2.0, 12.0), rng.uniform(-15.0, 25.0)
         om[:, :] = o
         de[:, :] = d
+        ph[:, :] = rng.choice([0.0, rng.uniform(-3, 3)])
+    elif fam == "phase_only":    # amplitude and detuning rows bit-identical from step to step, only the phase moves
+        o, d = rng.uniform(2.0, 12.0), rng.uniform(-15.0, 25.0)
+        om[:, :] = o
+        de[:, :] = d
+        if rng.random() < 0.4:
+            de[:, :] += np.array([rng.uniform(-1, 1) for _ in range(n)])[None, :]
+        mode = rng.choice(["global", "per_atom", "mixed"])
+        for k in range(1, nsteps):
+            if mode == "mixed" and rng.random() < 0.4:
+                ph[k, :] = ph[k - 1, :]          # an unchanged step in between
+            elif mode == "per_atom" or (mode == "mixed" and rng.random() < 0.5):
+                ph[k, :] = np.array([rng.uniform(-3, 3) for _ in range(n)])
+            else:
+                ph[k, :] = ph[k - 1, 0] + rng.choice([math.pi / 2, math.pi, -1.0, rng.uniform(0.5, 3.0)])
     else:  # generic: weak or strong drives, local detunings — variational oracle only (two-site DMRG can stall)
         for k in range(nsteps):
             om[k, :] = rng.choice([0.05, 0.3, 1.0, rng.uniform(0.0, 12.0)])
             de[k, :] = np.array([rng.uniform(-20, 40) for _ in range(n)])
-    if rng.random() < 0.3:
+    if fam not in ("repeat", "phase_only") and rng.random() < 0.3:
         ph[:, :] = np.array([[rng.uniform(-3, 3) for _ in range(n)] for _ in range(nsteps)])
     dts = [rng.choice([10.0, 50.0, 100.0]) for _ in range(nsteps)]
     times = [0.0]
     for d in dts:
         times.append(times[-1] + d)
-    r = rng.random()
+    r = rng.random() if fam not in ("repeat", "phase_only") else 1.0
     tol, ms = ENERGY_TOL, 2000
     if r < 0.15:
         tol = rng.choice([1e-3, 1e-8])
@@ -146,7 +163,7 @@ def gen_physical(rng, tier, i):
     cfg = {}
     if fam == "generic" and rng.random() < 0.3:
         cfg["max_bond_dim"] = rng.choice([1, 2, 3])
-    reorder = rng.random() < 0.15
+    reorder = rng.random() < 0.15 and fam not in ("repeat", "phase_only")
     return dict(kind="physical", family=fam, n=n, a=a, omega=om.tolist(), delta=de.tolist(), phi=ph.tolist(),
                 times=times, tol=tol, max_sweeps=ms, cfg=cfg, reorder=reorder, tape=None)
 
@@ -248,22 +265,25 @@ def drive(case):
         cur.append(f"m{impl._sweep_index}:{int(bool(kw['orth_center_right']))}")
         return l, r, e
 
-    orig_sc, orig_tc = impl.sweep_complete, impl.timestep_complete
+    orig_sc = impl.sweep_complete
+    base_tc = M.MPSBackendImpl.timestep_complete
 
     def sc():
         cur.append("s%d" % int(bool(impl.convergence_check(impl.energy_tolerance))))
         orig_sc()
 
-    def tc():
-        cur.append(f"d{impl._timestep_index}")
-        st = impl.state
-        out["completed"].append(dict(k=int(impl._timestep_index), centre=st.orthogonality_center,
+    def tc(self_):
+        # patched on the BASE class: every completion is seen, also one made through super() by an override
+        cur.append(f"d{self_._timestep_index}")
+        st = self_.state
+        out["completed"].append(dict(k=int(self_._timestep_index), centre=st.orthogonality_center,
                                      factors=[f.detach().clone() for f in st.factors]))
-        orig_tc()
+        base_tc(self_)
 
-    impl.sweep_complete, impl.timestep_complete = sc, tc
+    impl.sweep_complete = sc
     guard = 0
-    with mock.patch.object(M, "minimize_energy_pair", wrapped), warnings.catch_warnings():
+    with mock.patch.object(M, "minimize_energy_pair", wrapped), \
+            mock.patch.object(M.MPSBackendImpl, "timestep_complete", tc), warnings.catch_warnings():
         warnings.simplefilter("ignore")
         while not impl.is_finished():
             guard += 1
@@ -312,7 +332,7 @@ def drive(case):
     return out
 
 
-VARIANT = "0"   # "0" = code as found (previous_energy survives a completed step), "1" = repaired; set by probe_variant()
+VARIANT = "1"   # "0" = code as found (previous_energy survives a completed step), "1" = repaired; set by probe_variant()
 
 
 def cfg_words(n, steps, tol, ms, times):
@@ -421,7 +441,7 @@ def oracle(case, out, rep=None):
                 if abs(ray - E) > 1e-9 * nrm:
                     bad.append((f"reported energy {E!r} is not <psi|H_k|psi>/<psi|psi> = {ray!r} of the returned state "
                                 f"(step {k}, dense Hamiltonian of drive row {k})", None))
-        if (j >= 1 and case["family"] in ("benign", "adiabatic", "repeat") and case["tol"] == ENERGY_TOL
+        if (j >= 1 and case["family"] in ("benign", "adiabatic", "repeat", "phase_only") and case["tol"] == ENERGY_TOL
                 and case["max_sweeps"] >= 2000 and not case.get("cfg")):
             if gap >= 0.05:
                 dev = abs(E - E0)
@@ -531,7 +551,7 @@ def gen_fake(rng):
     return dict(n=n, steps=steps, times=times, tol=rng.choice([0.125, 0.25, 0.0, 1e-5, 1.0]), ms=rng.randint(0, 5),
                 dir=d, idx=idx, left=left, right=right, centre=centre, prev=prev, cur=cur,
                 sc=rng.randint(0, 5), ts=rng.randint(0, steps if rng.random() < 0.1 else steps - 1),
-                curT=float(rng.randint(0, 20)), tgtT=float(rng.randint(0, 20)), e=lat())
+                curT=float(rng.randint(0, 20)), tgtT=float(rng.randint(0, 20)), e=lat(), same_rows=rng.random() < 0.4)
 
 
 def run_fake(st):
@@ -590,16 +610,24 @@ def run_fake(st):
     def init_baths():
         impl.left_baths, impl.right_baths = [t1], [t1] * (n - 1)
     impl.init_baths = init_baths
-    orig_sc, orig_tc = impl.sweep_complete, impl.timestep_complete
+    # drive rows as a real object has them: all rows distinct unless the case asks for repeated amplitude/detuning rows
+    rows = torch.arange(st["steps"], dtype=torch.float64).reshape(-1, 1) * (0.0 if st.get("same_rows") else 1.0)
+    impl.omega = (rows + 1.0).repeat(1, n).to(torch.complex128)
+    impl.delta = (rows - 2.0).repeat(1, n).to(torch.complex128)
+    impl.phi = torch.arange(st["steps"], dtype=torch.float64).reshape(-1, 1).repeat(1, n).to(torch.complex128)
+    impl.pulser_data, impl.well_prepared_qubits_filter = None, None
+    impl.has_lindblad_noise, impl.dim = False, 2
+    orig_sc = impl.sweep_complete
+    base_tc = M.MPSBackendImpl.timestep_complete
 
     def sc():
         events.append("s%d" % int(bool(impl.convergence_check(impl.energy_tolerance))))
         orig_sc()
 
-    def tc():
-        events.append(f"d{impl._timestep_index}")
-        orig_tc()
-    impl.sweep_complete, impl.timestep_complete = sc, tc
+    def tc(self_):
+        events.append(f"d{self_._timestep_index}")
+        base_tc(self_)
+    impl.sweep_complete = sc
 
     def fake_min(**kw):
         events.append(f"m{impl._sweep_index}:{int(bool(kw['orth_center_right']))}")
@@ -609,6 +637,7 @@ def run_fake(st):
         return "finished"
     halt = "ok"
     with mock.patch.object(M, "minimize_energy_pair", fake_min), \
+            mock.patch.object(M.MPSBackendImpl, "timestep_complete", tc), \
             mock.patch.object(M, "new_left_bath", lambda *a, **k: t1), \
             mock.patch.object(M, "new_right_bath", lambda *a, **k: t1):
         try:
@@ -646,7 +675,7 @@ def _ser(case):
 
 def check(rep: Report, tier: str, seed: int) -> None:
     rep.rule = ("cases = noiseless Rydberg chains (2-6 atoms quick, 2-8 thorough; 1-4 time steps; families benign/adiabatic/"
-                "repeat/generic drives; energy_tolerance 1e-5/1e-3/1e-8; max_sweeps 2000 or 1-3; bond caps) run by the real "
+                "repeat(constant incl. phase)/phase_only(same amplitude+detuning rows, global or per-atom phase change)/generic drives; energy_tolerance 1e-5/1e-3/1e-8; max_sweeps 2000 or 1-3; bond caps) run by the real "
                 "DMRGBackendImpl with minimize_energy_pair wrapped, the same with its energy replaced by adversarial tapes "
                 "(never/immediately converging, oscillating, lattice ties, truncated), and single progress() calls of the "
                 "real methods on a tensor-free stand-in from arbitrary states. non-trivial = at least one full sweep; "
@@ -669,8 +698,14 @@ def check(rep: Report, tier: str, seed: int) -> None:
     compat.install()
     import emu_mps.mps_backend_impl  # noqa: F401 — pay the torch/pulser import before the budget clock starts
     rep.extra["t_import"] = round(time.time() - tl, 1)
+    global VARIANT
+    try:
+        probe_variant()
+    except Exception as e:  # noqa: BLE001 — the real sweep_complete/timestep_complete misbehaving on the stand-in object
+        VARIANT = "1"
+        rep.fail(f"real DMRGBackendImpl.progress raised {type(e).__name__}: {e} on the stand-in object (variant probe)", dict(probe=True))
     rep.extra["model_variant"] = {"0": "asFound (previous_energy kept across steps)",
-                                  "1": "repaired (previous_energy cleared on convergence)"}[probe_variant()]
+                                  "1": "repaired (previous_energy cleared on convergence)"}[VARIANT]
     if VARIANT == "0":
         rep.broke("DMRGBackendImpl.sweep_complete matches the asFound variant (previous_energy survives a completed step): "
                   "repaired_every_step_compares_its_own_sweeps does not apply, stale_previous_energy_counterexample does")
@@ -702,7 +737,7 @@ def check(rep: Report, tier: str, seed: int) -> None:
         rep.hist("n", case["n"])
         rep.hist("halt", out["halt"])
         rep.hist("sweeps_per_step", ",".join(map(str, sweeps_per_step(out["events"])[:4])) or "-")
-        for msg, klass in oracle(case, out, rep):
+        for msg, klass in oracle(case, out, rep) + machine_oracle(case, out):
             rep.fail(msg, dict(case=_ser(case), events=out["events"][-12:], reported=out["reported"]), klass=klass)
         lines.append(run_line(case, out))
         expect.append(run_expect(out))
@@ -802,9 +837,13 @@ def machine_oracle(case, out):
             bad.append((f"sweep {s // per} visits {mins[s:s + per]} instead of {want}", None))
             break
     ms = case["max_sweeps"]
-    for c in sweeps_per_step(evs):
+    for k, c in enumerate(sweeps_per_step(evs)):
         if c > max(ms, 1):
             bad.append((f"a step ran {c} sweeps with max_sweeps={ms}", None))
+        if c < 2 and (VARIANT == "1" or k == 0):
+            bad.append((f"time step {k} was completed after {c} sweep(s): its energy was never compared with another sweep of "
+                        f"the same step (sweeps per step: {sweeps_per_step(evs)})", None))
+            break
     done = [int(e[1:]) for e in evs if e.startswith("d")]
     if done != list(range(len(done))):
         bad.append((f"time steps completed out of order or twice: {done}", None))
@@ -820,6 +859,8 @@ def machine_oracle(case, out):
                 break
             if not conv:
                 prev = en
+            elif VARIANT == "1":
+                prev = None          # repaired code: previous_energy = None when the step converges
             if conv != (i + 1 < len(evs) and evs[i + 1].startswith("d")):
                 bad.append((f"converged sweep not followed by step completion (or vice versa) at event {i}", None))
                 break
@@ -833,9 +874,20 @@ def machine_oracle(case, out):
 def replay(rep: Report, path: str) -> int:
     data = json.load(open(path))
     bad = 0
+    try:
+        probe_variant()
+    except Exception:  # noqa: BLE001
+        pass
     for f in data.get("failing_inputs", []):
         d = f["data"]
-        if d.get("witness") == "stale":
+        if d.get("probe"):
+            try:
+                probe_variant()
+                print("replay: the variant probe runs now")
+            except Exception as e:  # noqa: BLE001
+                print(f"replay: real code raised {type(e).__name__}: {e} on the stand-in object")
+                bad += 1
+        elif d.get("witness") == "stale":
             w = stale_witness()
             print("replay:", w[0] if w else "property holds on this input now")
             bad += bool(w)
